@@ -175,6 +175,14 @@ var verifGoodKey = func() []byte {
 	return k
 }()
 
+var verifGoodKey2 = func() []byte {
+	k := make([]byte, 64)
+	for i := range k {
+		k[i] = byte(i*11 + 5)
+	}
+	return k
+}()
+
 type verifCfg struct {
 	enc int
 }
@@ -239,6 +247,9 @@ func verifSetCfg(c string) (res verifCfg) {
 			case 3: // real encryption, ciphertexts left as they are (oracles)
 				SetShouldEncrypt(true)
 				SetEncryptionKey(verifGoodKey)
+			case 4: // a second usable key (the key in force must follow SetEncryptionKey)
+				SetShouldEncrypt(true)
+				SetEncryptionKey(verifGoodKey2)
 			case 2: // unusable key material injected at the API level
 				SetShouldEncrypt(true)
 				SetEncryptionKey([]byte("0123456789"))
